@@ -262,7 +262,7 @@ func c01Run(c *fw.Ctx, b fw.Batch) {
 			}
 			nm := 400
 			if thorough {
-				nm = 6000
+				nm = 30000
 			}
 			for k := 0; k < nm; k++ {
 				m := append([]byte(nil), s...)
